@@ -108,6 +108,47 @@ def _match(a, b):
     return a == b
 
 
+def affine_interval(t, memo=None):
+    """Float term -> (base symbol or None, coefficient of it, lo, hi): the term as coef*base + [lo, hi] by interval evaluation
+    (|sin| <= 1); None when the term leaves that shape (two different symbols, a symbol multiplied by a non-constant, ...)."""
+    if memo is None:
+        memo = {}
+    k = id(t)
+    if k in memo:
+        return memo[k]
+
+    def mulc(iv, c):
+        a, b = iv[2] * c, iv[3] * c
+        return (iv[0], iv[1] * c, min(a, b), max(a, b))
+    r = None
+    if isinstance(t, tuple) and t:
+        if t[0] == "c" and isinstance(t[1], float):
+            r = (None, 0.0, t[1], t[1])
+        elif t[0] == "sym":
+            r = (t[1], 1.0, 0.0, 0.0)
+        elif t[0] == "op1" and t[1] in ("sin", "cos"):
+            r = (None, 0.0, -1.0, 1.0)
+        elif t[0] == "op" and t[1] in ("Add", "Sub") and len(t) == 4:
+            x, y = affine_interval(t[2], memo), affine_interval(t[3], memo)
+            if x is not None and y is not None and (x[0] is None or y[0] is None or x[0] == y[0]):
+                sg = 1.0 if t[1] == "Add" else -1.0
+                lo = x[2] + (y[2] if sg > 0 else -y[3])
+                hi = x[3] + (y[3] if sg > 0 else -y[2])
+                r = (x[0] if x[0] is not None else y[0], x[1] + sg * y[1], lo, hi)
+        elif t[0] == "op" and t[1] == "Mul" and len(t) == 4:
+            x, y = affine_interval(t[2], memo), affine_interval(t[3], memo)
+            if x is not None and y is not None:
+                if x[1] == 0.0 and x[2] == x[3]:
+                    r = mulc(y, x[2])
+                elif y[1] == 0.0 and y[2] == y[3]:
+                    r = mulc(x, y[2])
+                elif x[1] == 0.0 and y[1] == 0.0:
+                    ps = [a * b for a in (x[2], x[3]) for b in (y[2], y[3])]
+                    r = (None, 0.0, min(ps), max(ps))
+    memo[k] = r
+    return r
+
+
 def r2_directions(chk, F):
     rule = "C07.R2"
     eng, D = ctx(F)
@@ -163,6 +204,13 @@ def r2_directions(chk, F):
                                                                       (arg.t[1] == "Add" and _match(norm(arg.t)[2:], norm(("op", "Add", ("c", tt), arg.t[2] if arg.t[3] == ("c", tt) else arg.t[3]))[2:]) and src == "TAI"))
                 chk.ob(rule, inst, "argument-shifted-by-%s32.184s" % ("-" if src == "ET" else "+"), oks, "float term shape (mirrored shift)",
                        detail=None if oks else repr(arg)[:300])
+                # where the correction is evaluated: the epoch's own seconds shifted by -/+32.184 s, give or take the periodic
+                # terms of the refinement loop.  An evaluation point off by d seconds changes the correction by K*M1*d
+                # (3.3e-10 s per second), so 1 s of slack keeps that below 1 ns while leaving room for any iteration scheme.
+                ai = affine_interval(arg.t) if isinstance(arg, Flt) else None
+                oke = ai is not None and ai[0] is not None and abs(ai[1] - 1.0) < 1e-12 and shift - 1.0 <= ai[2] and ai[3] <= shift + 1.0
+                chk.ob(rule, inst, "correction-evaluated-within-1s-of-own-seconds%+.3f" % shift, oke, "interval evaluation of the float term (|sin| <= 1)",
+                       detail=None if oke else {"affine_interval": ai})
                 exp = T0 - L + J if src == "ET" else T0 + L - J
             else:
                 okc = len(corr) >= 1 and len(muls) == 1 and muls[0][0][1] is corr[-1][1]
